@@ -1,15 +1,16 @@
 #!/bin/bash
-# tools/reseed.sh [names...]  re-validate stored seeded changes against the current /repo HEAD: the patch must still
-# apply and the check of its property must report a violation. Writes /verif/seeded/RESULTS.txt.
+# tools/reseed.sh [names...]  re-validate stored seeded changes against the current /repo HEAD without touching /repo
+# (overlay runs, 4 in parallel): the patch must still apply and the check of its property must report a violation.
+# Writes /verif/seeded/RESULTS.txt.
 cd /verif
-names=("$@"); [ ${#names[@]} -eq 0 ] && names=($(ls -d seeded/C??-? | xargs -n1 basename))
-: > seeded/RESULTS.txt.new
-for n in "${names[@]}"; do
-  id=${n%%-*}
+names=("$@"); [ ${#names[@]} -eq 0 ] && names=($(ls -d seeded/C??-[0-9]* | xargs -n1 basename | grep -v NOTES))
+one() {
+  n=$1; id=${n%%-*}
   if ! git -C /repo apply --check "/verif/seeded/$n/patch.diff" 2>/dev/null; then
-    echo "$n NOAPPLY (patch no longer applies to HEAD $(git -C /repo rev-parse --short HEAD))" >> seeded/RESULTS.txt.new; continue
+    echo "$n NOAPPLY (patch no longer applies to HEAD $(git -C /repo rev-parse --short HEAD))"; return
   fi
-  r=$(tools/trymutant.sh "/verif/seeded/$n/patch.diff" "$id" 2>&1 | tail -1 | cut -c1-300)
-  echo "$n $r" >> seeded/RESULTS.txt.new
-done
-mv seeded/RESULTS.txt.new seeded/RESULTS.txt
+  echo "$n $(/verif/tools/trymutant_alt.sh /verif/seeded/$n/patch.diff $id 2>&1 | tail -1 | cut -c1-300)"
+}
+export -f one
+printf '%s\n' "${names[@]}" | xargs -P 4 -I{} bash -c 'one {}' > seeded/RESULTS.txt.new
+sort seeded/RESULTS.txt.new > seeded/RESULTS.txt; rm -f seeded/RESULTS.txt.new
